@@ -19,7 +19,12 @@ from vlib import build_drivers, write_evidence
 
 def run(ctx):
     mc = noisecheck.model(ctx, "C03")
+    import listenercheck
+    ls, lt = listenercheck.model_check(ctx)
     binary = build_drivers(ctx)
+    # the TCP entry point: the real Listener hands out only connections whose
+    # handshake completed (Listener.tla / Trace_Listener.tla)
+    ctx.cov.update(listenercheck.validate(ctx, binary, "noise"))
     out = ctx.sub("noise")
     lines, flagged, r = noisecheck.cases(ctx, binary, out)
     for f in flagged:
@@ -37,7 +42,7 @@ def run(ctx):
               or (l["case"]["pattern"] == "KK" and
                   (l["case"]["iExpect"] != "sR" or l["case"]["rExpect"] != "sI"))]
     write_evidence(ctx, "model_checking", {
-        "states": mc["distinct"], "transitions": mc["generated"],
+        "states": mc["distinct"] + ls, "transitions": mc["generated"] + lt,
         "traces_validated_against_impl": len(lines),
         "evaluations": len(lines),
         "distinct_nontrivial": len({json.dumps(l["case"], sort_keys=True)
